@@ -1470,6 +1470,13 @@ func runL2History(g *gen, prof l2profile, nops int, stats map[string]int) (strin
 		case ch < 80:
 			op := &sop{kind: "sel", c: c, desc: g.r.Intn(2) == 0}
 			nc := []int{0, 0, 1, 1, 2, 3}[g.r.Intn(6)]
+			if g.r.Intn(8) == 0 {
+				// a lookup by key alone, the operand written in the other numeric storage class
+				// (WHERE k = 3.0 for the key 3): the row is found and its key comes back as stored
+				op.cons = []scon{{op: "eq", v: twin(key())}}
+				nc = -1
+				stats["sel_eq_twin"]++
+			}
 			for i := 0; i < nc; i++ {
 				v := key()
 				if g.r.Intn(4) == 0 {
@@ -1486,7 +1493,7 @@ func runL2History(g *gen, prof l2profile, nops int, stats map[string]int) (strin
 				}
 				op.cons = append(op.cons, scon{op: cop, v: v})
 			}
-			if g.r.Intn(3) == 0 {
+			if nc >= 0 && g.r.Intn(3) == 0 {
 				// several bounds on the same side, strict and non-strict mixed, at keys that exist:
 				// the scan must honour the tightest one whatever the order they are given in
 				op.cons = nil
@@ -1505,12 +1512,12 @@ func runL2History(g *gen, prof l2profile, nops int, stats map[string]int) (strin
 				// would make the omission impossible to tell from a wrong row)
 				op.limit = 1 + g.r.Intn(3)
 			}
-			if g.r.Intn(10) == 0 && len(op.cons) > 0 {
+			if nc >= 0 && g.r.Intn(10) == 0 && len(op.cons) > 0 {
 				// a comparison of the key with NULL: never true, no row, no failure
 				op.cons[g.r.Intn(len(op.cons))].v = sval{tag: 'N'}
 				stats["sel_null_operand"]++
 			}
-			if g.r.Intn(6) == 0 && op.limit == 0 {
+			if nc >= 0 && g.r.Intn(6) == 0 && op.limit == 0 {
 				// an additional constraint on a non-key column, written before the key constraints
 				op.kind = "selnk"
 				op.col = g.r.Intn(ncols)
